@@ -105,7 +105,10 @@ DataSafe == fs["IN"] = "orig" \/ (~Alias /\ fs["TGT"] = "out")
 (* nothing partial ever carries the final name *)
 NoPartialTarget == ~Alias => fs["TGT"] \in {"absent", "other", "out"}
 (* a failing run leaves the input untouched and the target name unharmed *)
-FailClean == exit > 0 => /\ fs["IN"] = "orig"
+(* (status 7 is the interrupt handler's exit: it runs concurrently with the rest of the program, *)
+(* which may have completed the job in the meantime - for that status only DataSafe and          *)
+(* NoTmpAtExit are demanded)                                                                    *)
+FailClean == exit > 0 /\ exit # 7 => /\ fs["IN"] = "orig"
                          /\ (~Alias => fs["TGT"] \in {InitTgt, "out"})
 (* no temporary file after a run that was not killed *)
 NoTmpAtExit == exit >= 0 /\ ~tmpStuck => fs["TMP"] = "absent"
